@@ -65,10 +65,14 @@ JOBS["timer3"] = dict(module="MC_Timer", constants=dict(Slice="timer", NQ=3, Gen
 JOBS["trace-solver"] = dict(kind="trace", module="TraceSolver", runs={"quick": 250, "thorough": 5000},
                             timeout={"quick": 900, "thorough": 3600})
 
+JOBS["trace-unify"] = dict(kind="trace", module="TraceUnify", runs={"quick": 1500, "thorough": 30000},
+                           timeout={"quick": 900, "thorough": 3600})
+
 UNIFY_ASSUME = [
     "pairs whose unification needs an occurs check are generated but excluded (counted under excluded_cases)",
     "the universe is bounded: terms of depth <= 2 over 2 atoms, 1 integer, 2 floats, 3 variables, $_, f/1 g/2 h/0, lists of <= 3 elements with and without tail",
     "the brute-force unifier oracle (Complete, MostGeneral) ranges over the ground terms of the 'laws' universe only",
+    "trace-unify: sessions of 1-4 unifications over random terms of depth <= 3 (2-6 variables, $_, f/1 g/2 h/0, lists of <= 3 elements with variable / $_ tails, related pairs) recorded from the real unify() are validated against the Unify machine, which is the reference there (it is checked against the declarative oracle on the exhaustive universes only)",
 ]
 
 PROPS = {
@@ -113,17 +117,17 @@ PROPS = {
                 rule="all interleavings of 2 (thorough 3) consecutive solve() calls with their timer threads in Timer.tla (thread_timer's locks, the unsynchronised flag, fast and slow queries); TLC checks NoFalseTimeout, RealAnswers, FastUndisturbed, NoLateFire on the protocol; every distinct schedule (where the main thread is when each callback runs) that the hooks can enforce is replayed against the real 1 s timer with a calibrated ~1.7 s search, the callback held at a gate and released at the chosen point; plus the solve / solve_all reporting rules of the session histories (virtual timer)",
                 assumptions=["wall-clock durations are abstracted to fast / slow; schedules in which the callback runs between the end of the search and the flag read inside solve() cannot be enforced from outside and are covered by the model only",
                              "the timer protocol modelled is thread_timer 0.3.0 as vendored in the cargo registry"]),
-    "C06": dict(jobs=["unify-laws", "unify-plain", "unify-sess"], level="model_checking",
+    "C06": dict(jobs=["unify-laws", "unify-plain", "unify-sess", "trace-unify"], level="model_checking",
                 rule="every ordered pair of universe terms x every prior substitution (and every session of 2-3 unifications), enumerated by TLC; "
                      "non-trivial = the Unify machine takes at least one deref/bind/decompose/list step; distinct by (terms, prior)",
                 assumptions=UNIFY_ASSUME),
-    "C07": dict(jobs=["unify-laws", "unify-plain"], level="model_checking",
+    "C07": dict(jobs=["unify-laws", "unify-plain", "trace-unify"], level="model_checking",
                 rule="every ordered pair x prior of the universe; the implementation is run in both orders (as written and after recreate_variables) and compared with itself and with the model's Symmetric invariant",
                 assumptions=UNIFY_ASSUME),
-    "C08": dict(jobs=["unify-sess", "unify-plain", "solver-alias"], level="model_checking",
+    "C08": dict(jobs=["unify-sess", "unify-plain", "solver-alias", "trace-unify"], level="model_checking",
                 rule="all sessions of 2-3 unifications over variables/terms of the session universe plus all single unifications under aliasing priors; after every real unify() the returned substitution set is walked with a visited set",
                 assumptions=UNIFY_ASSUME),
-    "C09": dict(jobs=["unify-plain", "unify-sess", "unify-laws"], level="model_checking",
+    "C09": dict(jobs=["unify-plain", "unify-sess", "unify-laws", "trace-unify"], level="model_checking",
                 rule="the cases of C06/C08 that contain $_ (argument, list element, list tail, nested); non-trivial as for C06",
                 assumptions=UNIFY_ASSUME),
     "C14": dict(jobs=["bip-cmp", "syntax-goals"], level="model_checking",
